@@ -474,6 +474,17 @@ func (e *c06Env) scenario(kind string) error {
 		if err := e.waitIdle(); err != nil {
 			return err
 		}
+		// the keystore file of b, taken while it exists (no commit): half of the variants bring b back
+		// from it after the removal - a keystore-file import writes keystore, status and address book
+		reimport := e.rs.Bool()
+		var bFile string
+		if reimport {
+			js, err := e.wd.W.W.ExportWallet(e.ids["b"], e.pass["b"])
+			if err != nil {
+				return fmt.Errorf("harness: export b: %v", err)
+			}
+			bFile = js
+		}
 		if err := e.step("remove b", true, func() error {
 			err := e.wd.W.W.RemoveWallet(e.ids["b"], e.pass["b"])
 			if err != nil && strings.Contains(err.Error(), "not found") {
@@ -492,8 +503,26 @@ func (e *c06Env) scenario(kind string) error {
 		if err := e.waitIdle(); err != nil {
 			return err
 		}
-		// the removed wallet is gone from the expectation
-		e.wd.Keys = e.wd.Keys[:1]
+		if reimport {
+			if err := e.step("import b from its keystore file", true, func() error {
+				_, err := e.wd.W.W.ImportWallet(bFile, e.pass["b"])
+				if err != nil && strings.Contains(err.Error(), "duplicate seed") {
+					return nil // committed before the crash
+				}
+				return err
+			}); err != nil {
+				return err
+			}
+			if err := e.extend(1, true); err != nil {
+				return err
+			}
+			if err := e.waitIdle(); err != nil {
+				return err
+			}
+		} else {
+			// the removed wallet is gone from the expectation
+			e.wd.Keys = e.wd.Keys[:1]
+		}
 	}
 	return e.waitIdle()
 }
